@@ -17,6 +17,7 @@
     (3) faults in unannotated keywords are judged identically with and without a version.
 """
 from __future__ import annotations
+import hashlib
 import json
 import os
 import random
@@ -124,30 +125,24 @@ def model_check(ck, vs, quick):
 
 
 # ------------------------------------------------------------------ (G1) + (G3) probes
-def probe_table(ck, vs, docs, vset, tag):
-    cst, env = setup(vs, docs, ["map"], vset, tag, mode="table")
-    cfg = tlc.cfg_text(constants=cst, invariants=["EmitTable"])
+def tables(ck, vs, docs, vset, names, tag):
+    """one TLC run: the probe table (documents x version classes) and the schema table (schema names x
+    Versions): every expected verdict / schema content evaluated from spec/Validator.tla"""
+    cst, env = setup(vs, docs, names, vset, tag, mode="table")
+    cfg = tlc.cfg_text(constants=cst, invariants=["EmitTable", "EmitSchemas"])
     r = tlc.run("Validator", cfg, tag=tag, workers=1, timeout=900, env=env)
     ck.add_tlc(tag, r)
     if r.violated:
-        raise MachineryFailure("probe table run violated %s" % r.violated)
-    rows = [row for p in r.prints if isinstance(p, list) for row in p]
+        raise MachineryFailure("table run violated %s" % r.violated)
+    allrows = [row for p in r.prints if isinstance(p, list) for row in p]
+    rows = [row for row in allrows if "doc" in row]
+    srows = [row for row in allrows if "name" in row]
     want = {d["id"] for d in docs}
     if {row["doc"] for row in rows} != want:
         raise MachineryFailure("TLC printed rows for %d of %d documents" % (len({row["doc"] for row in rows}), len(want)))
-    return rows
-
-
-def schema_table(ck, vs, names, vset, tag):
-    cst, env = setup(vs, [], names, vset, tag, mode="schemas")
-    r = tlc.run("Validator", tlc.cfg_text(constants=cst, invariants=["EmitSchemas"]), tag=tag, workers=1, timeout=900, env=env)
-    ck.add_tlc(tag, r)
-    if r.violated:
-        raise MachineryFailure("schema table run violated %s" % r.violated)
-    rows = [row for p in r.prints if isinstance(p, list) for row in p]
-    if {row["name"] for row in rows} != set(names) | {"map"}:
-        raise MachineryFailure("TLC printed schema rows for %s" % sorted({row["name"] for row in rows}))
-    return sorted(rows, key=lambda r: (r["name"], r["v"]))
+    if {row["name"] for row in srows} != set(names) | {"map"}:
+        raise MachineryFailure("TLC printed schema rows for %s" % sorted({row["name"] for row in srows}))
+    return rows, sorted(srows, key=lambda r: (r["name"], r["v"]))
 
 
 def run_schemas(ck, vs, rows, tmp):
@@ -298,13 +293,13 @@ def history_runs(ck, vs, vset, n, seed, tag, max_calls=5):
     return docs, hs[:n]
 
 
-def pair_histories(ck, vs, vset, tag, want, ops):
+def pair_histories(ck, vs, vset, tag, want, ops, names=("map", "layer")):
     """every history of exactly two calls over a small representative set (exhaustive, not sampled):
     two calls are the minimal witness of a cache-key / in-place-pruning leak"""
     docs = [d for d in vs.entry_docs(entry_ids={w.split("@")[0] for w in want}) if d["id"] in want]
     if len(docs) != len(want):
         raise MachineryFailure("representative documents missing: %s" % [d["id"] for d in docs])
-    cst, env = setup(vs, docs, ["map", "layer"], vset, tag, max_calls=2, mode="all", ops=ops)
+    cst, env = setup(vs, docs, list(names), vset, tag, max_calls=2, mode="all", ops=ops)
     cfg = tlc.cfg_text(constants=cst, invariants=["Emit", "CacheSound", "HistoryIndependent"])
     r = tlc.run("Validator", cfg, tag=tag, workers=1, timeout=1800, env=env)
     ck.add_tlc(tag, r)
@@ -473,11 +468,28 @@ def brief(a):
     return a
 
 
+def tree_hash():
+    """the files this property is about, as they are now (another process may be editing /repo)"""
+    h = hashlib.sha1()
+    base = os.path.join(common.REPO, "mappyfile")
+    files = [os.path.join(base, f) for f in ("validator.py", "utils.py", "cli.py")]
+    sdir = os.path.join(base, "schemas")
+    files += [os.path.join(sdir, f) for f in sorted(os.listdir(sdir)) if f.endswith(".json")]
+    for f in files:
+        try:
+            with open(f, "rb") as fh:
+                h.update(f.encode() + b"\0" + fh.read())
+        except OSError:
+            h.update(f.encode() + b"\0<missing>")
+    return h.hexdigest()
+
+
 # ------------------------------------------------------------------ run
 def run(tier):
     ck = common.Check("C09", tier, "model_checking", RULE)
     quick = tier == "quick"
     seed = ck.seed
+    tree0 = tree_hash()
     vs = versions.get()
     if len(vs.entries) < 50:
         raise MachineryFailure("only %d annotated entries found" % len(vs.entries))
@@ -489,8 +501,12 @@ def run(tier):
     # (G1)+(G3): quick = every entry x its versions in every context it has; rows are cheap
     docs = vs.entry_docs(contexts="all")
     faults = vs.fault_docs("root" if quick else "all")
-    fault_versions = sorted({v for s in VERSION_SETS for v in s}) if not quick else list(VERSION_SETS[seed % len(VERSION_SETS)])
-    rows = probe_table(ck, vs, docs + faults, fault_versions, "c09_table")
+    # Versions of this run = every version at / next to a bound: fault documents and every schema name
+    # are judged at each of them
+    rows, srows = tables(ck, vs, docs + faults, bound_versions(vs), vs.types, "c09_table")
+    if quick:      # fault documents: a seed-picked version set (and no version) instead of every version
+        keep = set(VERSION_SETS[seed % len(VERSION_SETS)]) | {NOV}
+        rows = [r for r in rows if r["vc"] != "fault" or r["v"] in keep]
     n_mod = run_probes(ck, vs, docs + faults, rows, module_every=(23 if quick else 2))
     ck.sample({"probe": rows[len(rows) // 3], "document": next(d["dict"] for d in docs + faults if d["id"] == rows[len(rows) // 3]["doc"])})
     ck.notes.append("probes %.1fs" % (time.time() - t0))
@@ -501,15 +517,15 @@ def run(tier):
     steps = 0
     try:
         # schema objects and create() for every schema name x every version at / next to a bound
-        srows = schema_table(ck, vs, vs.types, bound_versions(vs), "c09_schemas")
         run_schemas(ck, vs, srows, tmp)
         ck.notes.append("schemas %.1fs" % (time.time() - t0))
         t0 = time.time()
         # (G2)
-        sets = [VERSION_SETS[0], VERSION_SETS[1 + seed % (len(VERSION_SETS) - 1)]] if quick else VERSION_SETS
-        per = 100 if quick else 1300
+        # quick: one simulation over two version sets at once (the first and a seed-picked one)
+        sets = [VERSION_SETS[0] + VERSION_SETS[1 + seed % (len(VERSION_SETS) - 1)]] if quick else VERSION_SETS
+        per = 200 if quick else 1300
         for k, vset in enumerate(sets):
-            hdocs, hs = history_runs(ck, vs, vset, per, seed * 100 + k, "c09_hist%d" % k, max_calls=5)
+            hdocs, hs = history_runs(ck, vs, vset, per, seed * 100 + k, "c09_hist%d" % k, max_calls=4 if quick else 5)
             rp = Replayer(vs, hdocs, tmp)
             for h in hs:
                 replay_history(ck, rp, h, "sim:%s" % (vset,))
@@ -518,9 +534,9 @@ def run(tier):
             n_hist += len(hs)
             if k == 0:
                 ck.sample({"history": hs[0]})
-        if quick:      # calls on the object only, two documents, two versions + none: 225 histories
+        if quick:      # calls on the object only, two documents, two versions + none: 144 histories
             pdocs, ps = pair_histories(ck, vs, (76, 77), "c09_pairs", ("layer.opacity@map/layers", "layer.utfdata@layer"),
-                                       ("validate", "get_versioned", "export"))
+                                       ("validate", "get_versioned", "export"), names=["map"])
         else:
             pdocs, ps = pair_histories(ck, vs, (50, 76, 77), "c09_pairs",
                                        ("layer.opacity@map/layers", "label.priority/anyOf/2@map/layers/classes/labels",
@@ -534,6 +550,9 @@ def run(tier):
     finally:
         shutil.rmtree(tmp, ignore_errors=True)
     ck.notes.append("histories %.1fs" % (time.time() - t0))
+    if tree_hash() != tree0:
+        raise MachineryFailure("validator.py / utils.py / cli.py / schemas under %s changed while the check was running; "
+                               "the comparison is void, run it again" % common.REPO)
     return ck.finish(exhaustive=False, coverage_extra={
         "annotated_entries": len(vs.entries), "probe_documents": len(docs), "fault_documents": len(faults),
         "probe_rows": len(rows), "schema_rows": len(srows), "module_level_probes": n_mod, "histories": n_hist, "exhaustive_two_call_histories": n_pairs, "history_steps": steps,
